@@ -8,13 +8,14 @@
    - YouTube video / short ids, Instagram shortcodes and usernames and Telegram message ids inside a
      returned record satisfy the module's validators;
    - the truncated routes named in the statement parse to None (computed).
-   PARTIAL: re-parsing record.url (Facebook, Google Drive) / normalize_youtube_url(u) gives the record back and
+   - Google Drive records parse back from the segments of their canonical url (route level).
+   PARTIAL: re-parsing record.url (Facebook; Drive at url level) / normalize_youtube_url(u) gives the record back and
    normalize_youtube_url is idempotent: decided by the harness over the route grammar (known findings F-X20..22). *)
 From Coq Require Import String.
 From Coq Require Import List NArith.
 Import ListNotations.
 From UV Require Import Py.Val Py.Str Py.Regex Py.UrlLib Py.UrlLibFacts Gen.Patterns Gen.Tables Ural.Utils Ural.HostnameTrieSet
-  Ural.Predicates Ural.Platforms Proofs.C19.
+  Ural.Predicates Ural.Platforms Proofs.C19 Proofs.C19b.
 Local Open Scope string_scope.
 Local Open Scope list_scope.
 
@@ -51,6 +52,15 @@ Theorem C19_telegram_ids_valid : forall e u r,
   exists name id, r = mkrec "TelegramMessage" [Some name; Some id] /\ is_telegram_message_id id = true.
 Proof. exact parse_telegram_ids_valid. Qed.
 
+(* Google Drive: whatever record the route function returns, re-parsing the path segments of its canonical url
+   ([type; d; id] for a file, [type; d; e; id; pub] for a published link) gives the record back -- except for a
+   file whose id is the literal segment pub (known finding F-X23, excluded by the hypothesis) *)
+Theorem C19_drive_roundtrip : forall segs r,
+  drive_route segs = Ok (Some r) ->
+  r <> mkrec "GoogleDriveFile" [record_field r 0; Some (lit "pub")] ->
+  drive_route (drive_url_segments r) = Ok (Some r).
+Proof. exact drive_roundtrip. Qed.
+
 (* the truncated routes of the statement (and a well-formed url per platform, so that the above is not vacuous) *)
 Definition yt_trie : res hts := hts_build env0 YOUTUBE_DOMAINS hts_empty.
 Definition yt (u : string) : res (option record) :=
@@ -80,5 +90,6 @@ Print Assumptions C19_parsers_total.
 Print Assumptions C19_youtube_ids_valid.
 Print Assumptions C19_instagram_ids_valid.
 Print Assumptions C19_telegram_ids_valid.
+Print Assumptions C19_drive_roundtrip.
 Print Assumptions C19_truncated_routes.
 Print Assumptions C19_wellformed_urls.
